@@ -182,6 +182,18 @@ func offsetReadsOf(f *Function, p *Phi) int {
 			}
 		}
 		if !record {
+			// unless an earlier run already made this cursor's element (the remaining reads then belong to it too)
+			for _, blk := range f.Blocks {
+				for _, ins := range blk.Instrs {
+					if x, ok := ins.(*Slice); ok && x.X == base && x.Low == Value(p) && x.High == nil && x.Max == nil {
+						if refs := x.Referrers(); refs != nil && len(*refs) > 0 {
+							record = true
+						}
+					}
+				}
+			}
+		}
+		if !record {
 			continue
 		}
 		// an existing element slice b[p:] is reused when it dominates the reads
@@ -196,19 +208,52 @@ func offsetReadsOf(f *Function, p *Phi) int {
 		if d == nil || !p.Block().Dominates(d) {
 			continue
 		}
-		elem := &Slice{X: base, Low: p}
-		elem.setType(base.Type())
-		elem.setPos(us[0].Pos())
-		elem.setBlock(d)
-		// insert after the φ-nodes of d, and before the first read if that is in d
-		at := 0
-		for at < len(d.Instrs) {
-			if _, isPhi := d.Instrs[at].(*Phi); !isPhi {
-				break
+		// an element slice b[p:] made by an earlier run is reused when it dominates the reads
+		var elem *Slice
+		for _, blk := range f.Blocks {
+			for _, ins := range blk.Instrs {
+				if x, ok := ins.(*Slice); ok && x.X == base && x.Low == Value(p) && x.High == nil && x.Max == nil {
+					dominatesAll := true
+					for _, u := range us {
+						if x.Block() == u.Block() {
+							before := false
+							for _, i2 := range blk.Instrs {
+								if i2 == Instruction(x) {
+									before = true
+									break
+								}
+								if i2 == u {
+									break
+								}
+							}
+							if !before {
+								dominatesAll = false
+							}
+						} else if !x.Block().Dominates(u.Block()) {
+							dominatesAll = false
+						}
+					}
+					if dominatesAll && elem == nil {
+						elem = x
+					}
+				}
 			}
-			at++
 		}
-		d.Instrs = append(d.Instrs[:at:at], append([]Instruction{elem}, d.Instrs[at:]...)...)
+		if elem == nil {
+			elem = &Slice{X: base, Low: p}
+			elem.setType(base.Type())
+			elem.setPos(us[0].Pos())
+			elem.setBlock(d)
+			// insert after the φ-nodes of d, and before the first read if that is in d
+			at := 0
+			for at < len(d.Instrs) {
+				if _, isPhi := d.Instrs[at].(*Phi); !isPhi {
+					break
+				}
+				at++
+			}
+			d.Instrs = append(d.Instrs[:at:at], append([]Instruction{elem}, d.Instrs[at:]...)...)
+		}
 		for _, u := range us {
 			b := u.Block()
 			var pre []Instruction
